@@ -111,48 +111,91 @@ def check(ctx):
                   'no read of MatchedPorts.value found outside port_selection')
 
     # ---- C03.explicit-first / semantics per branch -------------------------------------------------------------------------------
-    loops = [n for n in iter_own_nodes(match.node) if isinstance(n, ast.For)]
-    chain: List[Tuple[ast.expr, List[ast.stmt]]] = []
-    if len(loops) == 1 and loops[0].body and isinstance(loops[0].body[-1], ast.If):
-        node = loops[0].body[-1]
+    # The tests that decide a port's semantics, in evaluation order, as (text, selection, kind, semantics assigned, ok):
+    # either an if/elif chain on self.sts / self.mts, or a loop over a literal sequence of (selection, semantics) pairs
+    # whose body tests the selection and assigns the pair's semantics.
+    loops = [n for n in iter_own_nodes(match.node) if isinstance(n, ast.For) and ctx.flow.enclosing(n, (ast.For,)) is None]
+    seq: List[Tuple[str, str, str, str, bool]] = []
+    recognised = False
+    port_loop = loops[0] if len(loops) == 1 else None
+    loopvar = getattr(port_loop.target, 'id', None) if port_loop is not None else None
+
+    def kind_of(t: str) -> str:
+        return 'strset' if 'match_strset' in t else 'wildcard' if 'match_wildcard' in t else '?'
+
+    def tests_of(test: ast.expr) -> List[ast.expr]:
+        return list(test.values) if isinstance(test, ast.BoolOp) and isinstance(test.op, ast.Or) else [test]
+
+    if port_loop is not None and port_loop.body and isinstance(port_loop.body[-1], ast.If):
+        node = port_loop.body[-1]
+        recognised = True
         while True:
-            chain.append((node.test, node.body))
+            assigns = [s_ for s_ in node.body if isinstance(s_, ast.Assign) and isinstance(s_.targets[0], ast.Subscript)]
+            for t_ in tests_of(node.test):
+                txt_ = ast.unparse(t_)
+                sel = 'sts' if 'self.sts.' in txt_ else 'mts' if 'self.mts.' in txt_ else '?'
+                ok_ = False
+                sem = '?'
+                if len(assigns) == 1:
+                    key = ast.unparse(assigns[0].targets[0].slice)
+                    sym = prog.resolve_expr_symbol(match.module, assigns[0].value)
+                    if isinstance(sym, tuple) and sym[0] == 'enum_member' and sym[1] is rs:
+                        sem = sym[2].lower()
+                    call = next((c for c in ast.walk(t_) if isinstance(c, ast.Call)), None)
+                    ok_ = sem == sel and key == loopvar and call is not None and bool(call.args) and ast.unparse(call.args[0]) == loopvar
+                seq.append((txt_, sel, kind_of(txt_), sem, ok_))
             if len(node.orelse) == 1 and isinstance(node.orelse[0], ast.If):
                 node = node.orelse[0]
             else:
                 break
-    if len(chain) < 4:
-        run.error('C03.explicit-first', match.module.name, match.qualname, 'if/elif chain',
-                  f'expected an if/elif chain of 4 tests in the loop of match(), found {len(chain)}')
+    elif port_loop is not None and port_loop.body and isinstance(port_loop.body[-1], ast.For):
+        inner = port_loop.body[-1]
+        it = inner.iter
+        if isinstance(it, ast.Name):
+            defs = [a_ for a_ in iter_own_nodes(match.node) if isinstance(a_, ast.Assign) and len(a_.targets) == 1
+                    and isinstance(a_.targets[0], ast.Name) and a_.targets[0].id == it.id]
+            it = defs[0].value if len(defs) == 1 else it
+        pairs = []
+        if isinstance(it, (ast.Tuple, ast.List)) and all(isinstance(e, ast.Tuple) and len(e.elts) == 2 for e in it.elts) and \
+                isinstance(inner.target, ast.Tuple) and len(inner.target.elts) == 2 and all(isinstance(x, ast.Name) for x in inner.target.elts):
+            for e in it.elts:
+                sel_txt = ast.unparse(e.elts[0])
+                sym = prog.resolve_expr_symbol(match.module, e.elts[1])
+                if sel_txt in ('self.sts', 'self.mts') and isinstance(sym, tuple) and sym[0] == 'enum_member' and sym[1] is rs:
+                    pairs.append((sel_txt.split('.')[1], sym[2].lower()))
+        sel_var, sem_var = (inner.target.elts[0].id, inner.target.elts[1].id) if pairs else (None, None)
+        body_if = inner.body[0] if len(inner.body) == 1 and isinstance(inner.body[0], ast.If) and not inner.body[0].orelse else None
+        if pairs and len(pairs) == len(it.elts) and body_if is not None:
+            assigns = [s_ for s_ in body_if.body if isinstance(s_, ast.Assign) and isinstance(s_.targets[0], ast.Subscript)]
+            leaves = any(isinstance(s_, ast.Break) for s_ in body_if.body)
+            if len(assigns) == 1 and leaves and ast.unparse(assigns[0].value) == sem_var and \
+                    ast.unparse(assigns[0].targets[0].slice) == loopvar:
+                recognised = True
+                for sel, sem in pairs:
+                    for t_ in tests_of(body_if.test):
+                        txt_ = ast.unparse(t_)
+                        call = next((c for c in ast.walk(t_) if isinstance(c, ast.Call)), None)
+                        on_sel = call is not None and isinstance(call.func, ast.Attribute) and ast.unparse(call.func.value) == sel_var
+                        ok_ = on_sel and sem == sel and bool(call.args) and ast.unparse(call.args[0]) == loopvar
+                        seq.append((txt_.replace(sel_var + '.', f'self.{sel}.'), sel, kind_of(txt_), sem, ok_))
+    if not recognised or len(seq) < 4:
+        run.error('C03.explicit-first', match.module.name, match.qualname, 'selection tests',
+                  f'the tests that assign a semantics in match() are neither an if/elif chain nor a loop over (selection, semantics) '
+                  f'pairs ({len(seq)} tests recognised)')
     else:
-        kinds = []
-        for test, body in chain:
-            t = ast.unparse(test)
-            kind = 'strset' if 'match_strset' in t else 'wildcard' if 'match_wildcard' in t else '?'
-            sel = 'sts' if 'self.sts.' in t else 'mts' if 'self.mts.' in t else '?'
-            kinds.append(kind)
-            # the branch assigns the semantics of the selection it tested, keyed by the loop port
-            assigns = [s for s in body if isinstance(s, ast.Assign) and isinstance(s.targets[0], ast.Subscript)]
-            ok = False
-            if len(assigns) == 1:
-                key = ast.unparse(assigns[0].targets[0].slice)
-                sym = prog.resolve_expr_symbol(match.module, assigns[0].value)
-                loopvar = getattr(loops[0].target, 'id', None)
-                ok = isinstance(sym, tuple) and sym[0] == 'enum_member' and sym[1] is rs and \
-                    sym[2].lower() == sel and key == loopvar
-                # the tested port is the loop port
-                call = next((c for c in ast.walk(test) if isinstance(c, ast.Call)), None)
-                ok = ok and call is not None and call.args and ast.unparse(call.args[0]) == loopvar
-            run.add('C03.explicit-first', match.module.name, match.qualname, test, ok,
-                    f'{sel.upper()} {kind} test assigns RuntimeSemantics.{sel.upper()} to the tested port' if ok else
-                    f'branch `{ast.unparse(test)[:50]}` does not assign the semantics of the selection it tested to '
-                    f'the tested port', node=test)
+        for txt_, sel, kind, sem, ok_ in seq:
+            run.add('C03.explicit-first', match.module.name, match.qualname, txt_, ok_,
+                    f'{sel.upper()} {kind} test assigns RuntimeSemantics.{sel.upper()} to the tested port' if ok_ else
+                    f'branch `{txt_[:50]}` does not assign the semantics of the selection it tested to the tested port')
+        kinds = [k for _t, _s, k, _m, _o in seq]
         first_wild = kinds.index('wildcard') if 'wildcard' in kinds else len(kinds)
         ok = all(k == 'strset' for k in kinds[:first_wild]) and all(k == 'wildcard' for k in kinds[first_wild:]) \
             and kinds.count('strset') == 2 and kinds.count('wildcard') == 2
-        run.add('C03.explicit-first', match.module.name, match.qualname, 'test order ' + ' '.join(kinds), ok,
+        order_txt = ' '.join(f'{s_}.{k}' for _t, s_, k, _m, _o in seq)
+        run.add('C03.explicit-first', match.module.name, match.qualname, 'test order ' + order_txt, ok,
                 'explicit-name tests precede the wildcard tests' if ok else
-                f'test order is {kinds}: a wildcard can win over an explicitly named port')
+                f'test order is [{order_txt}]: a wildcard is tested before the explicit names of the other selection - a wildcard can '
+                f'win over an explicitly named port')
     run.floor('C03.explicit-first', 5)
 
     # ---- C03.unknown ------------------------------------------------------------------------------------------------------------
@@ -210,9 +253,20 @@ def check(ctx):
                         'port names are handed over in (provides, requires) order' if ok else
                         f'match({a0}, {a1}) against parameters {params}', node=c)
         pt = prog.func('ast_view', 'portnames_t')
+        # which local set becomes which field of PortNames(provides=..., requires=...)
+        role_of: Dict[str, str] = {}
+        for c in iter_own_nodes(pt.node):
+            if isinstance(c, ast.Call) and prog.resolve_expr_symbol(pt.module, c.func) is prog.cls('ast_view', 'PortNames'):
+                flds = list(prog.class_fields(prog.cls('ast_view', 'PortNames')))
+                for i, a in enumerate(c.args):
+                    if isinstance(a, ast.Name) and i < len(flds):
+                        role_of[a.id] = flds[i]
+                for k in c.keywords:
+                    if k.arg and isinstance(k.value, ast.Name):
+                        role_of[k.value.id] = k.arg
         for c in iter_own_nodes(pt.node):
             if isinstance(c, ast.Call) and isinstance(c.func, ast.Attribute) and c.func.attr == 'add':
-                tgt = ast.unparse(c.func.value)
+                tgt = role_of.get(ast.unparse(c.func.value), ast.unparse(c.func.value))
                 facts = [ast.unparse(f) for f, p in abs_.facts_at(c) if p]
                 ok = any(f'PortDirection.{tgt.upper()}' in f for f in facts) and c.args and ast.unparse(c.args[0]).endswith('.name')
                 run.add('C03.sides', pt.module.name, pt.qualname, c, ok,
